@@ -839,24 +839,24 @@ Proof.
 Qed.
 
 (* the guard on a history: every ID passed to set(Id) has the shape of its C++ type *)
-Fixpoint run_ok (P : plans) (ops : list op) (s : state) : Prop :=
+Fixpoint shaped_run (P : plans) (ops : list op) (s : state) : Prop :=
   match ops with
   | [] => True
-  | o :: r => op_ok s o /\ match exec P o s with (s1, inl _) => run_ok P r s1 | (_, inr _) => True end
+  | o :: r => op_ok s o /\ match exec P o s with (s1, inl _) => shaped_run P r s1 | (_, inr _) => True end
   end.
-Fixpoint run_ok_b (P : plans) (ops : list op) (s : state) : bool :=
+Fixpoint shaped_run_b (P : plans) (ops : list op) (s : state) : bool :=
   match ops with
   | [] => true
-  | o :: r => op_ok_b s o && match exec P o s with (s1, inl _) => run_ok_b P r s1 | (_, inr _) => true end
+  | o :: r => op_ok_b s o && match exec P o s with (s1, inl _) => shaped_run_b P r s1 | (_, inr _) => true end
   end.
-Lemma run_ok_b_sound P : forall ops s, run_ok_b P ops s = true -> run_ok P ops s.
+Lemma shaped_run_b_sound P : forall ops s, shaped_run_b P ops s = true -> shaped_run P ops s.
 Proof.
   induction ops as [|o r IH]; intros s H; simpl in *; auto. apply andb_true_iff in H. destruct H as [H1 H2].
   split; [apply op_ok_b_sound; exact H1|]. destruct (exec P o s) as [s1 [v|e]]; auto.
 Qed.
 
 Theorem uniq_invariant P : add_plan_complete P = true -> remove_plan_complete P = true -> plans_typed P = true ->
-  uid_rule P = true -> forall ops s s', WF s -> U s -> run_ok P ops s -> run_succ P ops s = Some s' -> WF s' /\ U s'.
+  uid_rule P = true -> forall ops s s', WF s -> U s -> shaped_run P ops s -> run_succ P ops s = Some s' -> WF s' /\ U s'.
 Proof.
   intros H1 H2 H3 H4. induction ops as [|o r IH]; intros s s' W Hu Hok H; simpl in H; [inversion H; subst; auto|].
   simpl in Hok. destruct Hok as [Ho Hr]. destruct (exec P o s) as [s1 [v|e]] eqn:E; [|discriminate].
